@@ -112,13 +112,56 @@ Worlds == {World(pt, et, l1, l2, ft, nf, c1, c2) :
               pt \in PlaneTables, et \in EdgeTables, l1 \in EdgeLists, l2 \in EdgeLists, ft \in FaceTables, nf \in NodeFaces,
               c1 \in {"l1", "n2"}, c2 \in {"l2"}}
 
+(* optional parts of the structured lump values, every legal combination (each part varies        *)
+(* INDEPENDENTLY of the others); the harness realises each with generic values, assigns it to an   *)
+(* empty BSP, saves, re-reads and reports the same description of what came back                   *)
+BmodelParts == {[lump |-> "bmodels", kv |-> kv, solids |-> n, where |-> w] :
+                   kv \in {"none", "empty", "full"}, n \in {0, 1, 3}, w \in {"world", "ent"}}
+OverlayParts == {[lump |-> "overlays", faces |-> f, fades |-> fd, levels |-> lv, order |-> ro] :
+                   f \in {0, 1, 64}, fd \in {"default", "set"}, lv \in {"zero", "set"}, ro \in {0, 3}}
+CubemapParts == {[lump |-> "cubemaps", count |-> c, size |-> z] : c \in {0, 1, 2}, z \in {0, 1, 13}}
+PropParts == {[lump |-> "props", fmt |-> f, count |-> c, leafs |-> l] :
+                   f \in {"V5", "V10", "V_LIGHTMAP_v10"}, c \in {0, 1, 2}, l \in {0, 1, 2}}
+DetailKinds == {"model", "sprite", "shape", "cross"}
+DetailParts == {[lump |-> "detail_props", kinds |-> k] :
+                   k \in {<<>>} \cup {<<a>> : a \in DetailKinds} \cup {<<a, a2>> : a, a2 \in DetailKinds}
+                         \cup {<<"cross", "model", "shape", "sprite">>}}
+EntParts == {[lump |-> "ents", keys |-> k, outs |-> o, sep |-> sp, spawnkeys |-> w] :
+                   k \in {0, 2}, o \in {0, 2}, sp \in {"comma", "esc"}, w \in {1, 3}}
+VisParts == {[lump |-> "visibility", clusters |-> c] : c \in {0 - 1, 0, 1, 9}}       \* -1: None (VVIS not run)
+TexPatterns == {<<1>>, <<1, 1>>, <<1, 2>>, <<1, 1, 2>>, <<1, 2, 1>>, <<1, 2, 3>>, <<>>}
+TexinfoParts == {[lump |-> "texinfo", pattern |-> pt, mats |-> m] : pt \in TexPatterns, m \in {"distinct", "same"}}
+BrushParts == {[lump |-> "brushes", sides |-> sd] : sd \in {<<>>, <<0>>, <<3>>, <<0, 3>>, <<3, 0, 1>>, <<1, 1>>}}
+PrimParts == {[lump |-> "primitives", verts |-> v, inds |-> ix] :
+                   v \in {<<>>, <<0>>, <<2>>, <<2, 0, 1>>}, ix \in {<<>>, <<0>>, <<3>>, <<0, 3, 1>>}}
+PakParts == {[lump |-> "pakfile", files |-> n] : n \in {0, 1, 2}}
+TextureParts == {[lump |-> "textures", names |-> n] :
+                   n \in {<<>>, <<"a/b">>, <<"brick/wall01", "wall01", "Brick/WALL01x">>}}
+
 Diag ==
     /\ PrintT(ToJson([tag |-> "DIAG", what |-> "foe", lawBroken |-> Cardinality(FoeLawBroken) + Cardinality(FoiLawBroken),
                       cases |-> Cardinality(SmallTables \X SubLists), tailCases |-> Cardinality(TailCases),
                       tailCaught |-> TailCaught]))
     /\ PrintT(ToJson([tag |-> "DIAG", what |-> "propsize", sizes |-> [f \in PropFormats |-> PropSize(f)]]))
     /\ \A w \in Worlds : PrintT(ToJson([tag |-> "WORLD", w |-> w]))
-    /\ PrintT(ToJson([tag |-> "DIAGDONE", worlds |-> Cardinality(Worlds)]))
+    /\ \A c \in BmodelParts : PrintT(ToJson([tag |-> "PART", c |-> c]))
+    /\ \A c \in OverlayParts : PrintT(ToJson([tag |-> "PART", c |-> c]))
+    /\ \A c \in CubemapParts : PrintT(ToJson([tag |-> "PART", c |-> c]))
+    /\ \A c \in PropParts : PrintT(ToJson([tag |-> "PART", c |-> c]))
+    /\ \A c \in DetailParts : PrintT(ToJson([tag |-> "PART", c |-> c]))
+    /\ \A c \in EntParts : PrintT(ToJson([tag |-> "PART", c |-> c]))
+    /\ \A c \in VisParts : PrintT(ToJson([tag |-> "PART", c |-> c]))
+    /\ \A c \in TexinfoParts : PrintT(ToJson([tag |-> "PART", c |-> c]))
+    /\ \A c \in BrushParts : PrintT(ToJson([tag |-> "PART", c |-> c]))
+    /\ \A c \in {x \in PrimParts : Len(x.verts) = Len(x.inds)} : PrintT(ToJson([tag |-> "PART", c |-> c]))
+    /\ \A c \in PakParts : PrintT(ToJson([tag |-> "PART", c |-> c]))
+    /\ \A c \in TextureParts : PrintT(ToJson([tag |-> "PART", c |-> c]))
+    /\ PrintT(ToJson([tag |-> "DIAGDONE", worlds |-> Cardinality(Worlds),
+                      parts |-> Cardinality(BmodelParts) + Cardinality(OverlayParts) + Cardinality(CubemapParts)
+                                + Cardinality(PropParts) + Cardinality(DetailParts) + Cardinality(EntParts)
+                                + Cardinality(VisParts) + Cardinality(TexinfoParts) + Cardinality(BrushParts)
+                                + Cardinality({x \in PrimParts : Len(x.verts) = Len(x.inds)}) + Cardinality(PakParts)
+                                + Cardinality(TextureParts)]))
 DiagInit == b = <<>> /\ tbl = <<>> /\ claims = {} /\ act = [op |-> "init"] /\ Diag
 DiagNext == UNCHANGED <<b, tbl, claims, act>>
 =============================================================================
